@@ -14,6 +14,9 @@ Line protocol of `model_c05` (one op per line, one answer per line):
   CPPTYPE <lo> <hi>      `_cpp_integer_type_for_range`
   TYPES <expr>           IntermediateT/ResultT of every run-time function node, preorder
   CPPEVAL <expr> ; <id>=<int> …        fixed-width evaluation vs the model's own annotations
+  SIG <atype>…           template arguments `IntermediateT ResultT ArgT…` of one generated call,
+                         from the annotations of result :: operands (`raise` = generator raises)
+  SIGS <expr>            `<Op>:<IntermediateT>,<ResultT>,<ArgT>…` of every emitted call, preorder
 
 atype:  i:<min>:<max>:<modulus>:<mv>  (inf, -inf)  |  b:T b:F b:U  |  e:<int> e:U
 cv:     n (None) | i<int> | bT | bF | e<int> | x (raised)
@@ -204,6 +207,16 @@ def showCppRes : CRes → String
   | .staticAssert => "static-assert"
   | .stuck => "stuck"
 
+def showTName : TName → String
+  | .int .i32 => "i32" | .int .u32 => "u32" | .int .i64 => "i64" | .int .u64 => "u64"
+  | .noInt => "none" | .bool => "bool" | .enum => "enum"
+
+def showOpKind : OpKind → String
+  | .bin .add => "Sum" | .bin .sub => "Difference" | .bin .mul => "Product"
+  | .bin .eq => "Equal" | .bin .ne => "NotEqual" | .bin .lt => "LessThan"
+  | .bin .le => "LessThanOrEqual" | .bin .gt => "GreaterThan" | .bin .ge => "GreaterThanOrEqual"
+  | .bin .and => "And" | .bin .or => "Or" | .choice => "Choice" | .max => "Maximum"
+
 def handle (line : String) : String :=
   let (op, rest) :=
     match line.splitOn " " with
@@ -252,6 +265,21 @@ def handle (line : String) : String :=
       match opTypes e with
       | some l => "types " ++ " ".intercalate (l.map fun (a, b) => showCType a ++ "/" ++ showCType b)
       | none => "crash"
+    | none => "bad-op"
+  | "SIG" =>
+    match ((rest.splitOn " ").filter (· ≠ "")).mapM parseAType with
+    | some (t :: ts) =>
+      match nodeSig (t :: ts) with
+      | some (it, ns) => " ".intercalate (showTName it :: ns.map showTName)
+      | none => "raise"
+    | _ => "bad-op"
+  | "SIGS" =>
+    match (parseTree rest).bind exprOf with
+    | some e =>
+      match opSigs e with
+      | some l => "sigs " ++ " ".intercalate (l.map fun (k, it, ns) =>
+          showOpKind k ++ ":" ++ ",".intercalate (showTName it :: ns.map showTName))
+      | none => "raise"
     | none => "bad-op"
   | "CPPEVAL" =>
     match rest.splitOn ";" with
